@@ -31,21 +31,38 @@
 (*                                                                         *)
 (* (A) abstract relocation table [cls, le, machine, rela, relocs, syms,     *)
 (*     data] with Enc = TableBytes / RelocImage (ET_REL: .debug_info,       *)
-(*     .rel[a].debug_info, .symtab, .strtab), reader ReadEntry;            *)
+(*     .rel[a].debug_info, .symtab, .strtab), reader ReadEntry; (A') the    *)
+(*     same tables named only by dynamic tags (DynImage: ET_DYN, PT_LOAD,   *)
+(*     PT_DYNAMIC, tags DT_REL.., DT_RELA.., DT_JMPREL/DT_PLTREL.., DT_RELR..) *)
 (* (B) the RELR machine [i, base, out] with the actions Anchor and Bitmap,  *)
 (*     its declarative denotation RelrDenote and the encoder RelrEnc;       *)
 (* (C) the recipe table Rows / Recipe / Eval and the apply machine          *)
 (*     [buf, k, err] with the action ApplyOne (one step per relocation, as  *)
-(*     the loop a consumer runs).                                          *)
+(*     the loop a consumer runs; it halts at the first refused entry).      *)
 (* TLC checks on the specification itself: DecodeRoundTrip (reader o writer *)
 (* = identity, entry count = size / entsize), RelrMachineIsDenotation,      *)
 (* RelrRoundTrip (Dec(Enc(addresses)) = addresses), AddressesStrictly-      *)
 (* Increasing, RelrNoWrap, ApplyTouchesOnlyField (action property: one step *)
 (* changes only [r_offset, r_offset + width)), ApplyRestUntouched,          *)
-(* ApplyIsPointwise (disjoint fields: the result is the formula applied to  *)
-(* the original field), OutcomeDefined, and the ASSUMEs: the recipe table   *)
-(* is a function of (machine, type, flavour), total, and its literal codes  *)
-(* are the registry's.                                                     *)
+(* ApplyIsFold, ApplyIsPointwise (disjoint fields: the result is the        *)
+(* formula applied to the original field), OutcomeDefined, FieldsInside,    *)
+(* DynWellFormed, and the ASSUMEs: the recipe table is a function of        *)
+(* (machine, type, flavour), total, and its literal codes are the           *)
+(* registry's (RegistryData; C17 checks the library's against the same).    *)
+(*                                                                         *)
+(* Judged against the standards (asserted; the unchanged tree deviates):    *)
+(*   RELA tables take A from r_addend only - gABI: "entries of type Rela    *)
+(*     contain an explicit addend; entries of type Rel store an implicit    *)
+(*     addend in the location to be modified"; elf64-2.4 2.9 says the same  *)
+(*     for the first relocation of a composed sequence.  So MIPS RELA       *)
+(*     R_MIPS_32 / R_MIPS_64 over a non-zero field is S + r_addend (field   *)
+(*     class "inplace-nonzero"); GNU as leaves the field zero, which is why *)
+(*     the deviation S + r_addend + *P is invisible on compiler output.     *)
+(*   The 64-bit PowerPC and zSeries supplements have Elf64_Rela only: a     *)
+(*     REL table there is the wrong flavour and must be refused with the    *)
+(*     relocation error like x86 RELA / x86-64 REL / LoongArch REL.         *)
+(*   R_MIPS_64 is a relocation of the n32 ABI as well (ELF32 container,     *)
+(*     RELA, plain r_info): applied like in an ELF64 object.                *)
 (*                                                                         *)
 (* Not asserted (a supplement does not fix it, or the property's supported  *)
 (* set does not name it) - never generated for the apply clauses:           *)
@@ -57,9 +74,12 @@
 (*   symbols of type STT_FUNC on ARM (the T bit): symbols are SHN_ABS       *)
 (*     STT_NOTYPE, so S = st_value;                                        *)
 (*   the synthetic r_info of a MIPS64 entry (elf64-2.4 has no such field);  *)
-(*   R_*_NONE placed so that fewer than 8 bytes follow r_offset;            *)
+(*   R_*_NONE placed so that fewer than 8 bytes follow r_offset (the        *)
+(*     supplements give it no field; the library reads one and raises);     *)
 (*   fields that leave the section, RELR streams starting with a bitmap or  *)
-(*     denoting addresses beyond the address space, sh_addr # 0.            *)
+(*     denoting addresses beyond the address space, sh_addr # 0, several    *)
+(*     sections of one name (which .rel.debug_info belongs to which         *)
+(*     .debug_info is then sh_info's business; images have unique names).   *)
 (***************************************************************************)
 EXTENDS Elf, Json, CSV, IOUtils
 
@@ -69,11 +89,12 @@ CONSTANTS Modes,        \* subset of AllModes
           BitmapBits,   \* relr mode: most bits set in a generated bitmap (besides the tag bit)
           DeltaPool,    \* relrset mode: address sets are the subsets of this set of word indices
           ErrTypes,     \* errors mode: type codes tried as unsupported (those outside the table)
-          Addends       \* apply mode: indices into ValuePool used as r_addend (RELA tables)
+          Addends,      \* apply mode: indices into ValuePool used as r_addend (RELA tables)
+          FirstAnchors  \* relr mode: how many of the anchors may open a stream (every anchor may follow)
 
 VARIABLES Mode, obj, phase, st
 vars == <<Mode, obj, phase, st>>
-AllModes == {"decode", "apply", "errors", "relr", "relrset"}
+AllModes == {"decode", "apply", "errors", "relr", "relrset", "dyn"}
 DevModes == {"decode"}
 
 Wsz(cls) == cls \div 8
@@ -227,6 +248,55 @@ RelrImage(o) ==
       bs == Flat([j \in 1..Len(o.words) |-> Fix(W(o.words[j]), ws, o.le)])
   IN [Im0 EXCEPT !.cls = o.cls, !.le = o.le, !.machine = o.machine,
         !.secs = << Sec(DotRelrDyn, N(19), N(2), N(4096), bs, N(Len(bs)), Z, Z, N(ws), N(ws)) >>]
+
+(* ------------------- (A') tables named by the dynamic section ---------- *)
+\* gABI ch.5 "Dynamic Section": DT_REL 17 / DT_RELSZ 18 / DT_RELENT 19, DT_RELA 7 / DT_RELASZ 8 / DT_RELAENT 9,
+\* DT_JMPREL 23 / DT_PLTRELSZ 2 / DT_PLTREL 20 (= DT_REL or DT_RELA: the flavour of the PLT table),
+\* DT_RELR 36 / DT_RELRSZ 35 / DT_RELRENT 37; the d_ptr values are virtual addresses (here: inside one PT_LOAD
+\* segment that maps the whole file at LoadBase).
+\* o = [cls, le, machine, present, rel, rela, jmprel, pltrela, words]; sections: 1 .dynamic (sh_link 2), 2 .dynstr,
+\* 3 .rel.dyn, 4 .rela.dyn, 5 .rel[a].plt, 6 .relr.dyn; segments: PT_LOAD, PT_DYNAMIC.
+LoadBase == 4194304
+DotDynamic == <<46, 100, 121, 110, 97, 109, 105, 99>>
+DotDynstr == <<46, 100, 121, 110, 115, 116, 114>>
+DotDyn == <<46, 100, 121, 110>>
+DotPlt == <<46, 112, 108, 116>>
+DynTable(o, es, rela) == TableBytes([cls |-> o.cls, le |-> o.le, machine |-> o.machine, rela |-> rela, relocs |-> es])
+DynTagCount(o) == 3 * Cardinality(o.present) + 1
+DynImage(o) ==
+  LET ws == Wsz(o.cls)
+      relb == DynTable(o, o.rel, FALSE)
+      relab == DynTable(o, o.rela, TRUE)
+      jmpb == DynTable(o, o.jmprel, o.pltrela)
+      relrb == Flat([j \in 1..Len(o.words) |-> Fix(W(o.words[j]), ws, o.le)])
+      dynlen == DynTagCount(o) * 2 * ws
+      RelSec(name, rela, bs) == Sec(name, N(IF rela THEN 4 ELSE 9), N(2), Z, bs, N(Len(bs)), Z, Z, N(ws), N(EntSize(o.cls, rela)))
+      secs(dyn) == << Sec(DotDynamic, N(6), N(3), Z, dyn, N(dynlen), N(2), Z, N(ws), N(2 * ws)),
+                      Sec(DotDynstr, N(3), N(2), Z, <<0>>, N(1), Z, Z, N(1), Z),
+                      RelSec(DotRel \o DotDyn, FALSE, relb), RelSec(DotRela \o DotDyn, TRUE, relab),
+                      RelSec((IF o.pltrela THEN DotRela ELSE DotRel) \o DotPlt, o.pltrela, jmpb),
+                      Sec(DotRelrDyn, N(19), N(2), Z, relrb, N(Len(relrb)), Z, Z, N(ws), N(ws)) >>
+      im0 == [Im0 EXCEPT !.cls = o.cls, !.le = o.le, !.machine = o.machine, !.etype = N(3), !.secs = secs(Rep(0, dynlen)),
+                         !.segs = <<Seg(N(1), Z, Z, Z, Z, Z, Z, Z), Seg(N(2), Z, Z, Z, Z, Z, Z, Z)>>]
+      fs == FileSize(im0)
+      va(k) == LoadBase + SecOff(im0, k)
+      tags == (IF "REL" \in o.present THEN << <<17, va(3)>>, <<18, Len(relb)>>, <<19, EntSize(o.cls, FALSE)>> >> ELSE <<>>)
+              \o (IF "JMPREL" \in o.present THEN << <<2, Len(jmpb)>>, <<20, IF o.pltrela THEN 7 ELSE 17>>, <<23, va(5)>> >> ELSE <<>>)
+              \o (IF "RELR" \in o.present THEN << <<36, va(6)>>, <<35, Len(relrb)>>, <<37, ws>> >> ELSE <<>>)
+              \o (IF "RELA" \in o.present THEN << <<9, EntSize(o.cls, TRUE)>>, <<8, Len(relab)>>, <<7, va(4)>> >> ELSE <<>>)
+              \o << <<0, 0>> >>
+      dyn == Flat([t \in 1..Len(tags) |-> Ser(DynF, [d_tag |-> N(tags[t][1]), d_val |-> N(tags[t][2])], o.cls, o.le)])
+  IN [im0 EXCEPT !.secs = secs(dyn),
+                 !.segs = <<Seg(N(1), N(5), Z, N(LoadBase), N(LoadBase), N(fs), N(fs), N(4096)),
+                            Seg(N(2), N(6), N(SecOff(im0, 1)), N(va(1)), N(va(1)), N(dynlen), N(dynlen), N(ws))>>]
+\* what a reader reports: the tables that are present, each with its flavour and entries (RELR: the addresses)
+DynTableView(o, es, rela) ==
+  LET bs == DynTable(o, es, rela) IN
+  [j \in 1..NumEntries(bs, o.cls, rela) |-> EntryView(o.cls, o.machine, ReadEntry(bs, j - 1, o.cls, o.le, o.machine, rela))]
+DynView(o) ==
+  [present |-> o.present, pltrela |-> o.pltrela,
+   REL |-> DynTableView(o, o.rel, FALSE), RELA |-> DynTableView(o, o.rela, TRUE), JMPREL |-> DynTableView(o, o.jmprel, o.pltrela),
+   RELR |-> IF o.words = <<>> THEN <<>> ELSE RelrRun(RelrInit, o.words, Wsz(o.cls)).out]
 
 (* ----------------------------- (C) recipes ----------------------------- *)
 Row(m, t, name, fl, w, f) == [m |-> m, t |-> t, name |-> name, fl |-> fl, w |-> w, f |-> f]
@@ -402,9 +472,13 @@ DecodePool(cls, machine) == IF cls = 32 THEN Pool32 ELSE IF machine = EM_MIPS TH
 DecodeConfigs == {<<32, TRUE, EM_386>>, <<32, FALSE, EM_MIPS>>, <<64, TRUE, EM_X86_64>>, <<64, FALSE, EM_PPC64>>,
                   <<64, TRUE, EM_MIPS>>, <<64, FALSE, EM_MIPS>>}
 
+DynPresent == {{"REL", "RELA", "JMPREL", "RELR"}, {"REL"}, {"RELA", "JMPREL"}, {"RELR"}, {"JMPREL"}, {}}
+
 \* RELR alphabets
 RelrAnchors(cls) == IF cls = 32 THEN {<<0, 0, 1, 0>>, <<192, 255, 255, 127>>, <<0, 240, 255, 255>>}
                     ELSE {<<0, 0, 1, 0, 0, 0, 0, 0>>, <<0, 255, 255, 255, 0, 0, 0, 0>>, <<0, 0, 255, 255, 255, 255, 255, 255>>}
+RECURSIVE AscDigits(_)                    \* a set of equal-length digit strings in ascending numeric order
+AscDigits(S) == IF S = {} THEN <<>> ELSE LET m == CHOOSE x \in S : \A y \in S \ {x} : DLess(x, y) IN <<m>> \o AscDigits(S \ {m})
 RelrBitPos(cls) == IF cls = 32 THEN {1, 2, 15, 16, 30, 31} ELSE {1, 2, 31, 32, 62, 63}
 RelrBitmaps(cls) == {WordOfBits(S \cup {0}, Wsz(cls)) : S \in {T \in SUBSET RelrBitPos(cls) : Cardinality(T) <= BitmapBits}}
 RelrOrigins(cls) == IF cls = 32 THEN {<<0, 0, 1, 0>>, <<0, 255, 255, 127>>} ELSE {<<0, 0, 1, 0, 0, 0, 0, 0>>, <<0, 255, 255, 255, 0, 0, 0, 0>>, <<0, 0, 0, 0, 0, 0, 0, 128>>}
@@ -425,10 +499,21 @@ Init ==
        [] Mode = "errors" ->
             \E o \in ErrPlans : obj = o /\ phase = "read" /\ st = [Idle EXCEPT !.buf = o.data, !.k = 1]
        [] Mode = "relr" ->
-            \E cls \in {32, 64}, le \in BOOLEAN : \E a \in RelrAnchors(cls) :
+            \E cls \in {32, 64}, le \in BOOLEAN : \E a \in {AscDigits(RelrAnchors(cls))[x] : x \in 1..FirstAnchors} :
                /\ obj = [cls |-> cls, le |-> le, machine |-> IF cls = 32 THEN EM_ARM ELSE EM_X86_64, words |-> <<a>>,
                          origin |-> <<>>, ds |-> <<>>]
                /\ phase = "write" /\ st = Idle
+       [] Mode = "dyn" ->
+            \E cf \in DecodeConfigs, pltrela \in BOOLEAN, pres \in DynPresent, v \in 1..2 :
+               LET P == DecodePool(cf[1], cf[3])
+                   a == RelrAnchors(cf[1])
+                   w0 == AscDigits(a)[1]
+               IN /\ obj = [cls |-> cf[1], le |-> cf[2], machine |-> cf[3], present |-> pres, pltrela |-> pltrela,
+                            rel |-> IF v = 1 THEN <<P[2], P[5]>> ELSE <<>>,
+                            rela |-> IF v = 1 THEN <<P[3], P[2], P[4]>> ELSE <<P[6]>>,
+                            jmprel |-> IF v = 1 THEN <<P[5], P[6]>> ELSE <<P[4], P[3], P[2]>>,
+                            words |-> IF v = 1 THEN <<w0, WordOfBits({0, 1, 8 * Wsz(cf[1]) - 2}, Wsz(cf[1])), AscDigits(a)[2]>> ELSE <<w0>>]
+                  /\ phase = "done" /\ st = Idle
        [] Mode = "relrset" ->
             \E cls \in {32, 64}, le \in BOOLEAN, D \in SUBSET DeltaPool :
               \E org \in RelrOrigins(cls) :
@@ -493,10 +578,30 @@ TableCase ==
   [mode |-> Mode, sub |-> obj.sub, cls |-> obj.cls, le |-> obj.le, machine |-> obj.machine, rela |-> obj.rela,
    chunks |-> Chunks(RelocImage(obj)), entries |-> TableView(obj), nsyms |-> Len(obj.syms),
    orig |-> obj.data, err |-> st.err, bytes |-> st.buf,
-   fields |-> IF Mode = "decode" THEN <<>> ELSE [j \in 1..Len(obj.relocs) |-> <<FieldOf(obj, j)[1], FieldOf(obj, j)[2], FieldClass(obj, j)>>]]
+   fields |-> IF Mode = "decode" THEN <<>>
+              ELSE [j \in 1..Len(obj.relocs) |-> LET f == TLCEval(FieldOf(obj, j)) IN <<f[1], f[2], FieldClass(obj, j)>>]]
 RelrCase ==
   [mode |-> Mode, cls |-> obj.cls, le |-> obj.le, chunks |-> Chunks(RelrImage(obj)), words |-> obj.words, addrs |-> st.out]
-Emit == phase = "done" => CSVWrite("%1$s", <<ToJson(IF IsTable THEN TableCase ELSE RelrCase)>>, IOEnv.OUT)
+\* One CSVWrite is one line, and a line longer than 8192 bytes is not written atomically when several workers emit.  The
+\* apply images (49 relocations) are therefore emitted in parts that the driver reassembles by `id`.
+CaseId == ToString(<<obj.machine, obj.sub, obj.cls, obj.le, obj.rela, obj.relocs[1].add>>)
+Put(r) == CSVWrite("%1$s", <<ToJson(r)>>, IOEnv.OUT)
+EmitParts ==
+  \E c \in {TableCase} :                                  \* (a singleton: the case is computed once)
+    LET id == CaseId
+        cs == c.chunks
+        tv == c.entries
+        ng == (Len(tv) + 15) \div 16
+    IN /\ \A i \in 1..Len(cs) : Put([id |-> id, part |-> "chunks", i |-> i, v |-> cs[i]])
+       /\ \A g \in 1..ng : Put([id |-> id, part |-> "entries", i |-> g, v |-> SubSeq(tv, 16 * (g - 1) + 1, Min({16 * g, Len(tv)}))])
+       /\ Put([id |-> id, part |-> "orig", i |-> 1, v |-> c.orig])
+       /\ Put([id |-> id, part |-> "bytes", i |-> 1, v |-> c.bytes])
+       /\ Put([id |-> id, part |-> "head", i |-> 1,
+               v |-> [mode |-> c.mode, sub |-> c.sub, cls |-> c.cls, le |-> c.le, machine |-> c.machine, rela |-> c.rela, nsyms |-> c.nsyms,
+                      err |-> c.err, fields |-> c.fields, nchunks |-> Len(cs), ngroups |-> ng]])
+DynCase == [mode |-> Mode, cls |-> obj.cls, le |-> obj.le, machine |-> obj.machine, chunks |-> Chunks(DynImage(obj)), view |-> DynView(obj)]
+Emit == phase = "done" => IF Mode = "apply" THEN EmitParts
+                          ELSE Put(IF IsTable THEN TableCase ELSE IF Mode = "dyn" THEN DynCase ELSE RelrCase)
 
 (* ------------------------------ properties ----------------------------- *)
 Done == phase = "done"
@@ -510,13 +615,13 @@ DecodeRoundTrip ==
           LET e == ReadEntry(bs, j - 1, obj.cls, obj.le, obj.machine, obj.rela) IN
           e = [obj.relocs[j] EXCEPT !.add = IF obj.rela THEN @ ELSE DZero(Wsz(obj.cls))]
 \* the operational machine computes the declarative denotation
-RelrMachineIsDenotation == (~IsTable /\ Done) => st.out = RelrDenote(obj.words, Wsz(obj.cls))
+RelrMachineIsDenotation == (Mode \in {"relr", "relrset"} /\ Done) => st.out = RelrDenote(obj.words, Wsz(obj.cls))
 \* Dec(Enc(addresses)) = addresses
 RelrRoundTrip ==
   (Mode = "relrset" /\ Done) => st.out = [x \in 1..Len(obj.ds) |-> DAdd(obj.origin, LEn(obj.ds[x], Wsz(obj.cls)))]
 AddressesStrictlyIncreasing ==
   Mode = "relrset" => \A x \in 1..(Len(st.out) - 1) : DLess(st.out[x], st.out[x + 1])
-RelrNoWrap == ~IsTable => ~st.wrapped
+RelrNoWrap == Mode \in {"relr", "relrset"} => ~st.wrapped
 \* one apply step changes nothing outside the field of the relocation it applies
 ApplyFrame ==
   (Mode \in {"apply", "errors"} /\ phase = "read" /\ st'.k = st.k + 1) =>
@@ -524,23 +629,22 @@ ApplyFrame ==
      /\ Len(st'.buf) = Len(st.buf)
      /\ \A i \in 1..Len(st.buf) : (i <= f[1] \/ i > f[1] + f[2]) => st'.buf[i] = st.buf[i]
 ApplyTouchesOnlyField == [][ApplyFrame]_vars
-\* at the end every byte outside all fields is the original one, and the machine is the fold
+\* at the end every byte outside all fields is the original one
 ApplyRestUntouched ==
   (Mode \in {"apply", "errors"} /\ Done) =>
-     LET fs == [j \in 1..Len(obj.relocs) |-> FieldOf(obj, j)]
-         touched == UNION {(fs[j][1] + 1)..(fs[j][1] + fs[j][2]) : j \in 1..(st.k - 1)}
-     IN /\ \A i \in 1..Len(obj.data) : i \notin touched => st.buf[i] = obj.data[i]
-        /\ Apply(obj) = [buf |-> st.buf, err |-> st.err]
+     LET touched == UNION {LET f == FieldOf(obj, j) IN (f[1] + 1)..(f[1] + f[2]) : j \in 1..(st.k - 1)}
+     IN \A i \in 1..Len(obj.data) : i \notin touched => st.buf[i] = obj.data[i]
+\* the machine (one action per relocation, halting at the first refusal) computes the fold
+ApplyIsFold == (Mode \in {"apply", "errors"} /\ Done) => Apply(obj) = [buf |-> st.buf, err |-> st.err]
 \* disjoint fields: each field holds the formula applied to the ORIGINAL content of that field
 FieldsDisjoint(o) ==
-  LET fs == [j \in 1..Len(o.relocs) |-> FieldOf(o, j)] IN
+  LET fs == TLCEval([j \in 1..Len(o.relocs) |-> FieldOf(o, j)]) IN
   \A i, j \in 1..Len(fs) : i < j => (fs[i][1] + fs[i][2] <= fs[j][1] \/ fs[j][1] + fs[j][2] <= fs[i][1])
 ApplyIsPointwise ==
   (Mode = "apply" /\ Done /\ st.err = "" /\ FieldsDisjoint(obj)) =>
      \A j \in 1..Len(obj.relocs) :
-        LET f == FieldOf(obj, j)
-            single == [obj EXCEPT !.relocs = <<obj.relocs[j]>>]
-        IN Slice(st.buf, f[1] + 1, f[2]) = Slice(Apply(single).buf, f[1] + 1, f[2])
+        LET f == TLCEval(FieldOf(obj, j)) IN
+        f[2] > 0 => Slice(st.buf, f[1] + 1, f[2]) = ApplyStep(obj, Slice(obj.data, f[1] + 1, f[2]), f[1], obj.relocs[j]).buf
 OutcomeDefined ==
   (Mode \in {"apply", "errors"} /\ Done) =>
      /\ st.err \in (IF Mode = "apply" THEN {""} ELSE {"symbol", "flavour", "unsupported"})
@@ -549,6 +653,14 @@ OutcomeDefined ==
 FieldsInside ==
   (Mode \in {"apply", "errors"} /\ Done) =>
      \A j \in 1..Len(obj.relocs) : LET f == FieldOf(obj, j) IN f[1] + (IF f[2] = 0 THEN 8 ELSE f[2]) <= Len(obj.data)
+
+\* the dynamic image: chunks disjoint, every table lies inside the PT_LOAD mapping, the section and the tags designate the same bytes
+DynWellFormed ==
+  Mode = "dyn" =>
+     LET im == DynImage(obj) IN
+     /\ ChunksDisjoint(im)
+     /\ \A k \in 3..6 : SecOff(im, k) + Len(im.secs[k].data) <= FileSize(im)
+     /\ Len(im.secs[1].data) = DynTagCount(obj) * 2 * Wsz(obj.cls)
 
 \* the recipe table is a function, is total over (machine, type, flavour), and uses the registry's codes
 ASSUME \A r1, r2 \in Rows : (r1.m = r2.m /\ r1.t = r2.t /\ r1.fl \cap r2.fl # {}) => r1 = r2
@@ -561,7 +673,7 @@ ASSUME /\ Reg["EM_386"] = <<EM_386>> /\ Reg["EM_MIPS"] = <<EM_MIPS>> /\ Reg["EM_
 
 \* cfg alphabets
 DeltasQuick == {0, 2, 5, 62, 64, 126, 128, 400}        \* half words: 5 is an even address off the word grid
-DeltasThorough == {0, 2, 4, 5, 6, 60, 62, 64, 124, 126, 128, 130, 252, 254, 400}
+DeltasThorough == {0, 2, 4, 5, 60, 62, 64, 124, 126, 128, 252, 400}
 ErrTypesQuick == {3, 4, 6, 8, 9, 12, 20, 24, 25, 37, 42, 49, 54, 100, 105, 107, 255, 256, 259, 260, 262, 1024}
 ErrTypesThorough == 0..300 \cup {1024, 65535}
 AddendsQuick == {1, 2, 6, 7}
